@@ -82,7 +82,7 @@ def acktracker(log):
         k = e["k"]
         if k == "arr":
             out.append({"ev": "arr", "ep": e["ep"], "space": e["space"], "pn": e["pn"], "ackel": e["ackel"],
-                        "auth": e["haskeys"], "t": e["t"], "hc": e["hc"]})
+                        "auth": e["haskeys"], "maybe": e["maybe"], "t": e["t"], "hc": e["hc"]})
         elif k == "tx":
             acks, spaces = [], []
             for d in e["dgs"]:
